@@ -297,6 +297,17 @@ def sqrt_inverse(vc):
             if not o.raised(N.SquareRootError):
                 bad.append(("sqrt-of-a-non-square", name, nonsq))
     vc.prove("sqrt(a)^2=a-or-SquareRootError;inverse*a=1", not bad, repr(bad[:4]))
+    if vc._get("mode") == "curves":
+        # a modulus that is NOT prime (explicit curve parameters with a damaged field): a result or the module's own error
+        # (numbertheory.Error: SquareRootError / JacobiError), never an assertion or another exception type
+        odd = []
+        for q in [m_ for m_ in range(9, 400, 2) if any(m_ % d_ == 0 for d_ in range(3, int(m_ ** 0.5) + 1, 2))]:
+            for a_ in range(q):
+                vc.tick()
+                o = vc.call(N.square_root_mod_prime, a_, q)
+                if not o.returned and not isinstance(o.exc, N.Error):
+                    odd.append((a_, q, repr(o.exc)))
+        vc.prove("composite-modulus=>result-or-numbertheory.Error", not odd, repr(odd[:4]))
 
 
 # "points that are off the curve, out of range or on another curve are rejected when loaded as public keys": the loaders'
